@@ -75,6 +75,51 @@ def confirm(sc, shape, trailing):
     return True, f'#[graphql({attrs})] ok: {last[:120]}'
 
 
+STYLES_MAIN = r'''#![allow(dead_code, non_camel_case_types)]
+use graphql_client::GraphQLQuery;
+#[derive(Debug, PartialEq, serde::Deserialize, serde::Serialize)]
+pub enum Direction { NORTH, SOUTH }
+DERIVES
+fn main() {
+    let body = r#"{"x": 1, "d": "NORTH"}"#;
+USES
+    println!("styles ok");
+}
+'''
+
+LITERAL_STYLES = [('plain', '"Direction"', '"allow"'), ('raw', 'r"Direction"', 'r"allow"'), ('raw-hash', 'r#"Direction"#', 'r##"allow"##'),
+                  ('escaped', '"D\\u{69}rection"', '"a\\u{6c}low"')]
+
+
+def confirm_literal_styles(sc):
+    """native, sampled: every string-literal style (plain / raw / raw with hashes / escaped) of an `extern_enums(...)` entry and
+    of a `key = "value"` pair reaches the option unchanged: the module must use the consumer's own `Direction` (it does not
+    compile otherwise) and `deprecated` must be accepted"""
+    d = os.path.join(sc, 'c18s')
+    shutil.rmtree(d, ignore_errors=True)
+    os.makedirs(os.path.join(d, 'src'))
+    os.makedirs(os.path.join(d, 'gql'))
+    open(os.path.join(d, 'Cargo.toml'), 'w').write(f'[package]\nname = "c18s"\nversion = "0.0.0"\nedition = "2021"\n[dependencies]\ngraphql_client = {{ path = "{vc.REPO}/graphql_client" }}\n'
+                                                    'serde = { version = "1", features = ["derive"] }\nserde_json = "1"\n[workspace]\n')
+    shutil.copy(os.path.join(vc.REPO, 'Cargo.lock'), os.path.join(d, 'Cargo.lock'))
+    open(os.path.join(d, 'gql', 's.graphql'), 'w').write('enum Direction { NORTH SOUTH }\ntype Query { x(a: Int): Int d: Direction }\n')
+    derives, uses = [], []
+    for i, (style, enum_lit, dep_lit) in enumerate(LITERAL_STYLES):
+        open(os.path.join(d, 'gql', f'q{i}.graphql'), 'w').write(f'query Q{i}($a: Int) {{ x(a: $a) d }}\n')
+        derives.append(f'#[derive(GraphQLQuery)]\n#[graphql(schema_path = "gql/s.graphql", query_path = "gql/q{i}.graphql", response_derives = "Debug,PartialEq", '
+                       f'deprecated = {dep_lit}, extern_enums({enum_lit}))]\npub struct Q{i};')
+        uses.append(f'    let r{i}: q{i}::ResponseData = serde_json::from_str(body).unwrap();\n    let d{i}: Option<Direction> = r{i}.d;\n    assert_eq!(d{i}, Some(Direction::NORTH));')
+    open(os.path.join(d, 'src', 'main.rs'), 'w').write(STYLES_MAIN.replace('DERIVES', '\n'.join(derives)).replace('USES', '\n'.join(uses)))
+    rc, out, _ = vc.run(['cargo', 'run', '--offline', '--target-dir', os.path.join(sc, 'c18-target')], cwd=d, timeout=900)
+    if rc != 0 or 'styles ok' not in out:
+        m = re.search(r'^error[^\n]*(\n[^\n]*){0,6}', out, re.M)
+        which = re.search(r'q(\d)::', m.group(0)) if m else None
+        style = LITERAL_STYLES[int(which.group(1))][0] if which else '?'
+        return False, f'string-literal styles {[x[0] for x in LITERAL_STYLES]} of extern_enums(..) / deprecated = ..: the `{style}` form does not reach the option: ' + \
+            (m.group(0)[:400] if m else out[-300:]).replace('\n', ' | ')
+    return True, 'all literal styles reach the options'
+
+
 def main():
     t0 = time.time()
     tier = vc.tier()
@@ -101,6 +146,13 @@ def main():
     replayed += 1
     if not ok:
         out.violation('native:flag-kv-list-trailing', desc, dict(kind='native'))
+    # and of the literal styles, which the kernel abstracts (source text of a literal is an uninterpreted string)
+    ok2, desc2 = confirm_literal_styles(sc)
+    replayed += 1
+    if not ok2:
+        out.violation('native:literal-styles', desc2, dict(kind='native-styles'))
+        # the arrangement counterexamples above that "did not reproduce" with plain literals are explained by this
+        out.inconclusive = [w for w in out.inconclusive if 'did not reproduce in a consumer crate' not in w]
     for w in R.inconclusive:
         out.inconc(w)
     cross = R.cross_check(limit=4 if tier == 'quick' else 20)
@@ -119,6 +171,14 @@ def main():
 def replay(path):
     p = json.load(open(path))
     sc = vc.scratch(PROP + 'r')
+    if p.get('kind') == 'native-styles':
+        ok, desc = confirm_literal_styles(sc)
+        print(desc)
+        return 0 if ok else 1
+    if p.get('kind') == 'native':
+        ok, desc = confirm(sc, ('flag', 'kv', 'list'), True)
+        print(desc)
+        return 0 if ok else 1
     ok, desc = confirm(sc, p['model'].get('shape', ()), p['model'].get('trailing_comma', False))
     print(desc)
     return 0 if ok else 1
